@@ -750,7 +750,16 @@ fn main() {
         edges.insert((st, call_key(&e["call"]), e["res"].as_str().unwrap().to_string()), e);
     }
     let table = Arc::new(Table { edges });
-    let programs = read_ndjson(&args[2]);
+    // programs are streamed (a length-4 run has a million of them)
+    let programs = {
+        use std::io::BufRead;
+        let f = std::fs::File::open(&args[2]).unwrap_or_else(|e| panic!("open {}: {e}", args[2]));
+        std::io::BufReader::new(f)
+            .lines()
+            .map(|l| l.expect("read line"))
+            .filter(|l| !l.trim().is_empty())
+            .map(|l| serde_json::from_str::<Value>(&l).unwrap_or_else(|e| panic!("bad program line: {e}")))
+    };
     let mut out = NdjsonOut::create(&args[3]);
     let rt = tokio::runtime::Builder::new_multi_thread()
         .worker_threads(jobs)
@@ -761,18 +770,16 @@ fn main() {
     rt.block_on(async {
         // templates per (mode, pre), built once from real peer objects
         let mut tmpls: HashMap<(String, String), Arc<Tmpl>> = HashMap::new();
-        for p in &programs {
-            for m in mode_media_list(p) {
+        let sem = Arc::new(tokio::sync::Semaphore::new(jobs * 2));
+        let mut handles = Vec::new();
+        for p in programs {
+            for m in mode_media_list(&p) {
                 let k = (m, p["pre"].as_str().unwrap().to_string());
                 if !tmpls.contains_key(&k) {
                     let t = make_templates(&k.0, &k.1).await;
                     tmpls.insert(k, Arc::new(t));
                 }
             }
-        }
-        let sem = Arc::new(tokio::sync::Semaphore::new(jobs * 2));
-        let mut handles = Vec::new();
-        for p in programs {
             for mode in mode_media_list(&p) {
                 let tm = tmpls[&(mode.clone(), p["pre"].as_str().unwrap().to_string())].clone();
                 let permit = sem.clone().acquire_owned().await.unwrap();
